@@ -16,6 +16,12 @@ use harness::*;
 trait El: Clone + std::fmt::Debug + 'static {
     fn mk(v: u32) -> Self;
     fn val(&self) -> u32;
+    fn uses(&self) -> Option<u32> {
+        None
+    }
+    fn clone_calls() -> Option<u64> {
+        None
+    }
 }
 impl El for u32 {
     fn mk(v: u32) -> u32 {
@@ -25,10 +31,17 @@ impl El for u32 {
         *self
     }
 }
-struct Cn(u32);
+/// `uses`: how often THIS element was the source of a clone (inline interior mutability: a clone taken from a
+/// bitwise duplicate instead of the original leaves it behind); CN_CLONES: all calls of Cn::clone on this thread.
+struct Cn(u32, std::cell::Cell<u32>);
+thread_local! {
+    static CN_CLONES: std::cell::Cell<u64> = std::cell::Cell::new(0);
+}
 impl Clone for Cn {
     fn clone(&self) -> Cn {
-        Cn(self.0 + (1 << 20))
+        self.1.set(self.1.get() + 1);
+        CN_CLONES.with(|c| c.set(c.get() + 1));
+        Cn(self.0 + (1 << 20), std::cell::Cell::new(0))
     }
 }
 impl std::fmt::Debug for Cn {
@@ -38,11 +51,39 @@ impl std::fmt::Debug for Cn {
 }
 impl El for Cn {
     fn mk(v: u32) -> Cn {
-        Cn(v)
+        Cn(v, std::cell::Cell::new(0))
     }
     fn val(&self) -> u32 {
         self.0
     }
+    fn uses(&self) -> Option<u32> {
+        Some(self.1.get())
+    }
+    fn clone_calls() -> Option<u64> {
+        Some(CN_CLONES.with(|c| c.get()))
+    }
+}
+
+/// `it.clone()` with the direct oracles of an observable Clone: exactly one T::clone per remaining element, each
+/// taken from the original's own element (its use count goes up by one), the new elements fresh.
+fn clone_checked<E: El, N: ArrayLength>(it: &GenericArrayIter<E, N>) -> GenericArrayIter<E, N> {
+    let calls = E::clone_calls();
+    let uses: Vec<Option<u32>> = it.as_slice().iter().map(|e| e.uses()).collect();
+    let c = it.clone();
+    if let (Some(a), Some(b)) = (calls, E::clone_calls()) {
+        let mut msg = None;
+        if b - a != it.len() as u64 {
+            msg = Some(format!("clone() of an iterator with {} elements to come ran T::clone {} times", it.len(), b - a));
+        } else if it.as_slice().iter().zip(&uses).any(|(e, u)| e.uses() != u.map(|u| u + 1)) {
+            msg = Some("clone() did not take every clone from the original's own remaining element (their use counts did not each go up by one)".to_string());
+        } else if c.as_slice().iter().any(|e| e.uses() != Some(0)) {
+            msg = Some("clone() handed out an element that is not the fresh result of T::clone".to_string());
+        }
+        if let Some(m) = msg {
+            PENDING.with(|p| p.borrow_mut().push(m));
+        }
+    }
+    c
 }
 
 /// zero-sized element: every value reads 0 (run `--elem zs`: the case's values and written values are all 0), so
@@ -121,11 +162,11 @@ fn run<E: El, N: ArrayLength>(vals: &[i128], ops: &[i128]) -> Vec<i128> {
                 out.push(if r.is_ok() { 5 } else { 6 });
             }
             8 => {
-                let c = it.clone();
+                let c = clone_checked(&it);
                 list(&mut out, c.as_slice());
             }
             9 => {
-                let c = it.clone();
+                let c = clone_checked(&it);
                 it = c;
                 out.push(5);
             }
@@ -143,7 +184,7 @@ fn run<E: El, N: ArrayLength>(vals: &[i128], ops: &[i128]) -> Vec<i128> {
             }
             10 => {
                 let mut seen = vec![];
-                let n = it.clone().fold(0usize, |acc, x| {
+                let n = clone_checked(&it).fold(0usize, |acc, x| {
                     seen.push(x);
                     acc + 1
                 });
@@ -152,14 +193,14 @@ fn run<E: El, N: ArrayLength>(vals: &[i128], ops: &[i128]) -> Vec<i128> {
             }
             11 => {
                 let mut seen = vec![];
-                it.clone().rfold((), |_, x| seen.push(x));
+                clone_checked(&it).rfold((), |_, x| seen.push(x));
                 list(&mut out, &seen);
             }
             12 => {
                 out.push(2);
-                out.push(it.clone().count() as i128)
+                out.push(clone_checked(&it).count() as i128)
             }
-            13 => opt(&mut out, it.clone().last()),
+            13 => opt(&mut out, clone_checked(&it).last()),
             15 | 16 => {
                 // consumes the iterator: whatever follows in the case is not run
                 let mut seen = vec![];
@@ -192,6 +233,34 @@ fn run<E: El, N: ArrayLength>(vals: &[i128], ops: &[i128]) -> Vec<i128> {
                 } else {
                     out.push(-1);
                 }
+                // ... under every formatter the caller may pick: the same text as a one-field tuple struct holding
+                // the remaining slice ([T; N]::into_iter() prints exactly that, under its own name)
+                struct Want<'a, E>(&'a [E]);
+                impl<'a, E: std::fmt::Debug> std::fmt::Debug for Want<'a, E> {
+                    fn fmt(&self, f: &mut std::fmt::Formatter<'_>) -> std::fmt::Result {
+                        f.debug_tuple("GenericArrayIter").field(&self.0).finish()
+                    }
+                }
+                let w = Want(it.as_slice());
+                let pairs = [
+                    ("{:#?}", format!("{:#?}", it), format!("{:#?}", w)),
+                    ("{:x?}", format!("{:x?}", it), format!("{:x?}", w)),
+                    ("{:X?}", format!("{:X?}", it), format!("{:X?}", w)),
+                    ("{:5?}", format!("{:5?}", it), format!("{:5?}", w)),
+                    ("{:+?}", format!("{:+?}", it), format!("{:+?}", w)),
+                    ("{:#06x?}", format!("{:#06x?}", it), format!("{:#06x?}", w)),
+                ];
+                for (spec, got, want) in pairs {
+                    if got != want {
+                        PENDING.with(|p| {
+                            p.borrow_mut().push(format!(
+                                "Debug with {} shows {:?} where the remaining elements print as {:?}",
+                                spec, got, want
+                            ))
+                        });
+                        break;
+                    }
+                }
             }
             _ => panic!("bad op code {}", code),
         }
@@ -213,6 +282,11 @@ fn run_case(case: &[i128]) -> Vec<i128> {
     )
 }
 
+thread_local! {
+    /// direct-oracle messages of the case being run (printed after its OBS line)
+    static PENDING: std::cell::RefCell<Vec<String>> = std::cell::RefCell::new(vec![]);
+}
+
 fn do_case(case: Vec<i128>) {
     let mut case = case;
     if std::env::args().any(|a| a == "zs") && !case.is_empty() && case[0] >= 0 {
@@ -232,9 +306,15 @@ fn do_case(case: Vec<i128>) {
     }
     emit_case(&case);
     match catch(|| run_case(&case)) {
-        Ok(obs) => emit_obs(&obs),
+        Ok(obs) => {
+            emit_obs(&obs);
+            for m in PENDING.with(|p| std::mem::take(&mut *p.borrow_mut())) {
+                emit_oracle(&m);
+            }
+        }
         Err(m) => {
             emit_obs(&[-99]);
+            PENDING.with(|p| p.borrow_mut().clear());
             emit_oracle(&format!("unexpected panic: {}", m));
         }
     }
